@@ -353,6 +353,7 @@ func runC18(p *Prog, r *Report, tier string) {
 	r.Assumptions = []string{"go/packages + go/types + go/ssa faithfully represent the module code", "dependencies are deterministic for the operations used", "the KV store iterates in key order"}
 	r.Trusted = r.Assumptions
 
+	externalAllowObligation(p, r, "D-external", "it may read the clock, randomness, process state or map order inside a dependency")
 	scope := []string{modulePkgs[0], modulePkgs[1], modulePkgs[2]}
 	rules := []string{"D-maprange", "D-forbidden-ref", "D-concurrency", "D-format", "D-float", "D-global-write", "D-global-alias", "D-keeper-field"}
 	counts := map[string]int{}
